@@ -79,7 +79,7 @@ TEXTS = {
                   "average evaluated from the check's own interpreter samples, incl. chained multi-signature runs; "
                   'direct oracles for exactness, resumability (random splits), previous-result immutability, '
                   'history independence.'),
-        'note': 'Resume law executed, not yet proved in Coq. Interpreter contents are runtime. Axioms: none.',
+        'note': 'Resume law proved on the model (C09_resume_equals_one_pass, C09_io_operator_copies_are_irrelevant); interpreter contents are runtime. Axioms: none.',
     },
     'C10': {
         'level': ('Theorem: the calibration-side and quantization-side scope functions, REGENERATED from the two '
